@@ -151,7 +151,8 @@ class Ctx:
                 old = f.read()
         vo = path[:-2] + '.vo'
         if old != text or not os.path.exists(vo) \
-                or os.path.getmtime(vo) < os.path.getmtime(path):
+                or os.path.getmtime(vo) < os.path.getmtime(path) \
+                or self._stale(relpath, vo):
             with open(path, 'w') as f:
                 f.write(text)
             rc, out, err, dt = self.coqc(relpath, 600)
@@ -161,6 +162,21 @@ class Ctx:
                              + err.strip()[-1500:])
         self.checker_cmds.append(
             f'regenerate {relpath} from /repo with tools/py2coq.py; coqc')
+
+    def _stale(self, relpath, vo):
+        """Is a compiled file older than a compiled file it imports?"""
+        r = subprocess.run(['coqdep'] + COQ_ARGS[:12] + [relpath], cwd=COQ,
+                           capture_output=True, text=True)
+        t = os.path.getmtime(vo)
+        for line in r.stdout.splitlines():
+            if ':' not in line or '.vo' not in line.split(':', 1)[0]:
+                continue
+            for d in line.split(':', 1)[1].split():
+                dp = os.path.join(COQ, d)
+                if d.endswith('.vo') and os.path.exists(dp) \
+                        and os.path.getmtime(dp) > t:
+                    return True
+        return False
 
     def coqc(self, relpath, timeout=600):
         cmd = ['timeout', str(timeout), 'coqc'] + COQ_ARGS + [relpath]
